@@ -422,6 +422,61 @@ class Ctx:
                     break
         return out
 
+    def inlined_guards(self, key, ops, lhs, rhs, any_side, cond, strict_ops, err, fail_on):
+        """Helper tolerance for R2: the guard may live in a directly called workspace function G (a check extracted into a helper).
+        G's conditions are matched with its parameters replaced by the caller's argument expressions; the guard must reject inside G
+        (failing edge cannot reach G's ok exits, optional error variant) and dominate G's ok exits. Returns [(call block in key, G, text)]."""
+        F = self.F
+        f = F.fns[key]
+        exf = Exprs(f)
+        out = []
+        for cbi, t in F.calls(key):
+            for g in callee_names(t):
+                if g not in F.fns or g == key:
+                    continue
+                gf = F.fns[g]
+                if gf["kind"] == "Closure" or not is_result_ty(gf["locals"][0]["s"]):
+                    continue
+                args = [exf.operand(a) for a in t["args"]]
+                rets = return_blocks(gf)
+                dead = error_exit_blocks(gf)
+                for bi, e, arms, els in self.guards(g):
+                    e2 = subst(e, args)
+                    am = dict(arms)
+                    t_true, t_false = els, am.get("0", els)
+                    hit = None
+                    if cond is not None:
+                        if re.search(cond, render(e2)):
+                            hit = (t_true, t_false, render(e2))
+                    else:
+                        c = as_cmp(e2)
+                        if c:
+                            op, l, r = c
+                            la, ra = atoms(l), atoms(r)
+                            for (o2, a1, a2) in ((op, la, ra), (SWAP[op], ra, la)):
+                                if strict_ops and not (_ops_ok(a1, lhs) and _ops_ok(a2, rhs)):
+                                    continue
+                                if o2 in ops and _has(a1, lhs) and _has(a2, rhs) and _has(a1 | a2, any_side):
+                                    hit = (t_true, t_false, "%s(%s, %s)" % (op, render(l), render(r)))
+                                    break
+                                if NEGATE[o2] in ops and _has(a1, lhs) and _has(a2, rhs) and _has(a1 | a2, any_side):
+                                    hit = (t_false, t_true, "!%s(%s, %s)" % (op, render(l), render(r)))
+                                    break
+                    if not hit:
+                        continue
+                    tt, tf, txt = hit
+                    fail_t, pass_t = (tt, tf) if fail_on else (tf, tt)
+                    if err is not None:
+                        ev = err_variant_reached(gf, fail_t)
+                        if ev is None or not re.search(err + "$", ev):
+                            continue
+                    if fail_t == pass_t or reach(gf, [fail_t], rets, (), dead) is not None:
+                        continue
+                    if reach(gf, [0], rets, {(bi, pass_t)}, dead) is not None:
+                        continue
+                    out.append((cbi, g, txt))
+        return out
+
     def r2(self, rid, fn, ops=(), lhs=(), rhs=(), any_side=(), cond=None, err=None, fail_on=True, sink="ok",
            bypass=(), desc=None, dominate=True, min_guards=1, strict_ops=True, within_iteration=False):
         """There is a guard `cmp(op, lhs, rhs)` in fn whose failing edge (taken when the comparison is
@@ -460,6 +515,13 @@ class Ctx:
                 # failing edge can still reach the sink: not a rejecting guard
                 continue
             good.append((bi, pass_t, fail_t, txt))
+        if len(good) < min_guards:
+            # the guard may have been extracted into a helper that is called with `?`
+            for (cbi, g, txt) in self.inlined_guards(key, ops, lhs, rhs, any_side, cond, strict_ops, err, fail_on):
+                e, kind = success_edges(f, cbi)
+                if kind in ("try", "match", "match-far", "plain-return") and e:
+                    sb, pt = e[0]
+                    good.append((sb, pt, None, "%s [in helper %s]" % (txt, short(g, 2))))
         if len(good) < min_guards:
             seen = ["candidates: " + g[3][:160] for g in gs[:4]]
             return self.record(rid, "R2", key, d, "violation", [fn_loc(f)],
